@@ -426,6 +426,20 @@ Section Ref.
       | CErr x => ([], e, SErr x)
       | CNA => ([], e, SNA)
       end
+    | AIfOK v okv arg arglit neg th el has_else =>
+      (* vok: v receives a copy of the argument's text (nothing when it has none), okv tells
+         whether that text is non-empty; the block chosen is an ordinary if/else *)
+      match (if arglit then Some (VBytes arg) else env_get e arg) with
+      | None => ([], e, SNA)
+      | Some x =>
+        let '(val, ok) := match text_of [] x with
+                          | Some ((_ :: _) as t) => (VBytes t, true)
+                          | _ => (VNil, false)
+                          end in
+        let e1 := env_set okv (VBool ok) true (env_set v val true e) in
+        if xorb neg ok then seq_with ref_eval th e1 [] false
+        else if has_else then seq_with ref_eval el e1 [] false else ([], e1, SNone)
+      end
     | ASwitch arg cases dflt has_default =>
       match arg with
       | [] => cases_ref ref_eval (fun c e => ref_cond flits e c) dflt has_default cases e
